@@ -38,6 +38,7 @@ import (
 	"strconv"
 	"strings"
 	"syscall"
+	"time"
 
 	"github.com/avfs/avfs"
 	"github.com/avfs/avfs/verifrt"
@@ -1244,6 +1245,23 @@ func main() {
 
 	groups := bk.flush(rep)
 
+	// concurrent copies (shared buffer pool) under the controlled scheduler
+	var cdl time.Time
+	if budget > 0 {
+		cdl = time.Now().Add(time.Duration(budget*0.3) * time.Second)
+	} else if *tier == "quick" {
+		cdl = time.Now().Add(60 * time.Second)
+	} else {
+		cdl = time.Now().Add(600 * time.Second)
+	}
+
+	cProgs, cExecs, cSamples, cerr := runConcurrent(*tier, rep, cdl)
+	if cerr != nil {
+		die("concurrent part: %v", cerr)
+	}
+
+	st.runs += cExecs
+
 	var unlistedSeen []string
 	for cl := range st.unlisted {
 		unlistedSeen = append(unlistedSeen, cl)
@@ -1293,6 +1311,9 @@ func main() {
 		"bound":                                    "single fault per run; every k of every fault-free trace; " + *tier + " space",
 		"known_findings_matched":                   append([]string{}, rep.KnownMatched()...),
 		"scratch_is_tmpfs":                         tmpfs,
+		"concurrent_programs":                      cProgs,
+		"concurrent_schedules":                     cExecs,
+		"concurrent_samples":                       cSamples,
 	}
 
 	werr := ev.Write(filepath.Join(verifDir, "evidence", *id+".json"), ev.Evidence{
